@@ -538,6 +538,10 @@ func presenceRule(c *Ctx, fnName string, rows []presRow) int {
 			switch {
 			case nSuccess == 0:
 				r.Add("STRUCT.presence", fnName, text, pos, false, "no success return path found")
+			case untested != "" && calleeTestsFlag(fn, untested):
+				// the presence test moved into the helper that decodes the field: the per-path rule, which walks this
+				// function's own branches, does not see it
+				r.Infof("STRUCT.presence %s: %s: not decided — flag %s is tested inside a helper, not in the function itself", fnName, text, untested)
 			case untested != "":
 				r.Add("STRUCT.presence", fnName, text, pos, false, "no branch of the function tests flag "+untested)
 			case bad:
@@ -554,4 +558,30 @@ func presenceRule(c *Ctx, fnName string, rows []presRow) int {
 func isErrType(t types.Type) bool {
 	n, ok := t.(*types.Named)
 	return ok && n.Obj().Pkg() == nil && n.Obj().Name() == "error"
+}
+
+// calleeTestsFlag: some function fn calls (module functions, transitively) branches on a load of a field named flag.
+func calleeTestsFlag(fn *ssa.Function, flag string) bool {
+	for _, b := range blocksWithCallees(fn) {
+		if b.Parent() == fn || len(b.Instrs) == 0 {
+			continue
+		}
+		iff, ok := b.Instrs[len(b.Instrs)-1].(*ssa.If)
+		if !ok {
+			continue
+		}
+		vals := []ssa.Value{iff.Cond}
+		if bo, ok := iff.Cond.(*ssa.BinOp); ok {
+			vals = append(vals, bo.X, bo.Y)
+		}
+		if un, ok := iff.Cond.(*ssa.UnOp); ok && un.Op == token.NOT {
+			vals = append(vals, un.X)
+		}
+		for _, v := range vals {
+			if loadedField(v) == flag {
+				return true
+			}
+		}
+	}
+	return false
 }
